@@ -244,3 +244,41 @@ pub mod bpool {
         }
     }
 }
+
+/// SATB barrier of ConcurrentImmix (strengthened C12: racing barriers).
+pub mod satb {
+    use crate::plan::Mutator;
+    use crate::util::ObjectReference;
+    use crate::vm::VMBinding;
+    use crate::MMTK;
+
+    /// `ConcurrentImmix::set_concurrent_marking_state(active)`; `false` if the plan is not
+    /// ConcurrentImmix.
+    pub fn set_concurrent_marking_state<VM: VMBinding>(mmtk: &MMTK<VM>, active: bool) -> bool {
+        match mmtk.get_plan().downcast_ref::<crate::plan::VerifConcurrentImmix<VM>>() {
+            Some(p) => {
+                p.verif_set_concurrent_marking_state(active);
+                true
+            }
+            None => false,
+        }
+    }
+
+    /// `ConcurrentImmix::concurrent_marking_in_progress()`.
+    pub fn concurrent_marking_in_progress<VM: VMBinding>(mmtk: &MMTK<VM>) -> Option<bool> {
+        mmtk.get_plan()
+            .downcast_ref::<crate::plan::VerifConcurrentImmix<VM>>()
+            .map(|p| p.concurrent_marking_in_progress())
+    }
+
+    /// Take (and clear) the mutator-local SATB buffer: the objects `SATBBarrierSemantics::flush_satb`
+    /// would hand to a `ProcessModBufSATB` packet.
+    pub fn take_satb_buffer<VM: VMBinding>(mutator: &mut Mutator<VM>) -> Option<Vec<ObjectReference>> {
+        crate::plan::verif_concimmix_take_satb(mutator)
+    }
+
+    /// Length of the mutator-local SATB buffer.
+    pub fn satb_buffer_len<VM: VMBinding>(mutator: &mut Mutator<VM>) -> Option<usize> {
+        crate::plan::verif_concimmix_satb_len(mutator)
+    }
+}
